@@ -76,8 +76,8 @@ impl core::convert::From<aes_kw::Error> for errors::Error {
 // ---- RFC 5869 HKDF ------------------------------------------------------------------------------
 //@trusted T3 hkdf_okm(h, salt, ikm, info, n) is an uninterpreted function returning n octets: HKDF-Expand(HKDF-Extract(salt, ikm), info, n) with HMAC-h, h = 0 for SHA-256 and 1 for SHA-512; salt == None is "no salt" (RFC 5869: HashLen zero octets); its output for n' <= n is the n'-octet prefix (HKDF-Expand truncates T(1)|T(2)|..)
 pub uninterp spec fn hkdf_okm(h: int, salt: Option<Seq<u8>>, ikm: Seq<u8>, info: Seq<u8>, n: nat) -> Seq<u8>;
-pub open spec fn HKDF_SHA256() -> int { 0 }
-pub open spec fn HKDF_SHA512() -> int { 1 }
+pub open spec fn hkdf_sha256_id() -> int { 0 }
+pub open spec fn hkdf_sha512_id() -> int { 1 }
 #[verifier::external_body]
 pub proof fn axiom_hkdf_okm_len(h: int, salt: Option<Seq<u8>>, ikm: Seq<u8>, info: Seq<u8>, n: nat)
     ensures hkdf_okm(h, salt, ikm, info, n).len() == n {}
